@@ -873,8 +873,14 @@ def read_pairs(filename, verbose=False):
         stdout.write("Reading pairs from file: %s\n" % filename)
 
     filename = check_filename(filename)
-    with Recfile(filename, "r", dtype=dtype, delim=" ") as robj:
-        data = robj.read()
+
+    import os
+    if os.path.getsize(filename) == 0:
+        # no pairs were found; the record reader cannot read zero rows
+        data = np.zeros(0, dtype=dtype)
+    else:
+        with Recfile(filename, "r", dtype=dtype, delim=" ") as robj:
+            data = robj.read()
 
     if verbose:
         stdout.write("    read %d pairs\n" % data.size)
